@@ -641,6 +641,104 @@ def load_corpus():
     return out
 
 
+
+# ------------------------------------------------------------------------------------------------ cubical filtration order
+def cub_faces(sizes, per, k):
+    """codimension-1 faces of cell k of a cubical complex (index arithmetic of the bitmap: coordinate c_i in [0, 2 s_i], periodic
+    directions [0, 2 s_i))"""
+    dims = [(2 * s if p else 2 * s + 1) for s, p in zip(sizes, per)]
+    c, r = [], k
+    for d in dims:
+        c.append(r % d)
+        r //= d
+    out = []
+    mult = 1
+    for i, d in enumerate(dims):
+        if c[i] % 2 == 1:
+            out.append(k - mult)
+            out.append(k + mult if c[i] + 1 < d else k - (d - 1) * mult)
+        mult *= d
+    return out
+
+
+def cubical_stage(ctx, res, only=None):
+    """the cubical part of the property: Bitmap_cubical_complex's filtration order on bitmaps large enough for tbb::parallel_sort to
+    split, many ties, builds with and without GUDHI_USE_TBB, 1/2/4/16 threads"""
+    btbb = ctx.build_harness("c03_cub_drv.cpp", tag="cubtbb", flags=["-DGUDHI_USE_TBB"])
+    bseq = ctx.build_harness("c03_cub_drv.cpp", tag="cubseq", flags=[])
+    rng = ctx.rng
+    cases = []
+    if only:
+        cases = [only]
+    else:
+        shapes = [([2, 3], [0, 0]), ([3, 3, 2], [0, 0, 0]), ([40, 40], [0, 0]), ([12, 12, 10], [0, 0, 0]), ([30, 30], [1, 0]), ([9, 9, 9], [1, 1, 0])]
+        if ctx.tier == "thorough":
+            shapes += [([64, 64], [0, 0]), ([16, 16, 16], [0, 1, 0]), ([5, 5, 5, 5], [0, 0, 0, 0])]
+        for sizes, per in shapes:
+            n = 1
+            for x in sizes:
+                n *= x
+            for style in ("ties3", "ties-inf", "distinct"):
+                if style == "ties3":
+                    vals = [str(rng.randrange(3)) for _ in range(n)]
+                elif style == "ties-inf":
+                    vals = [("inf" if rng.random() < 0.1 else str(rng.randrange(2))) for _ in range(n)]
+                else:
+                    perm = list(range(n))
+                    rng.shuffle(perm)
+                    vals = [str(x) for x in perm]
+                cases.append({"sizes": sizes, "per": per, "vals": vals, "style": style})
+    seen = set()
+    for c in cases:
+        sizes, per, vals = c["sizes"], c["per"], c["vals"]
+        head = ("P %%d %d %s | %s |" % (len(sizes), " ".join(map(str, sizes)), " ".join(map(str, per)))) if any(per) else \
+               ("B %%d %d %s |" % (len(sizes), " ".join(map(str, sizes))))
+        answers = {}
+        for (name, b, threads) in [("seq", bseq, 1), ("tbb", btbb, 1), ("tbb", btbb, 2), ("tbb", btbb, 4), ("tbb", btbb, 16)]:
+            rc, out, err = ctx.run_bin(b, (head % threads) + " " + " ".join(vals) + "\n", timeout=1200, cpu=120)
+            answers[(name, threads)] = out.strip().split("\n")[-1] if out.strip() else "DIED rc=%d" % rc
+        res.count("cubical-shape:%s%s:%s" % ("x".join(map(str, sizes)), ":periodic" if any(per) else "", c.get("style", "replay")))
+        ref = answers[("seq", 1)]
+        small = {"sizes": sizes, "per": per, "vals": vals if len(vals) <= 400 else vals[:400] + ["...(%d values, regenerate with the seed)" % len(vals)], "style": c.get("style")}
+        case = {"cubical": small, "seed": ctx.seed}
+
+        def viol(kind, what, exp=None, obs=None, **kw):
+            if kind not in seen:
+                seen.add(kind)
+                res.violation(kind, what, case, exp, obs, **kw)
+        if ref.startswith(("EXC", "DIED", "CRASH")):
+            viol("cubical:crash", "Bitmap_cubical_complex: %s on shape %s" % (ref[:80], sizes))
+            continue
+        try:
+            n, seq, meta = [x.strip() for x in ref.split(" # ")]
+            n = int(n)
+            order = [int(x) for x in seq.split()]
+            fd = [(float("inf") if x.split(":")[0] == "inf" else int(x.split(":")[0]), int(x.split(":")[1])) for x in meta.split()]
+        except Exception:
+            viol("cubical:format", "unparsable answer %r" % ref[:100])
+            continue
+        res.evaluations += 5
+        res.traces_validated += 1
+        if sorted(order) != list(range(n)):
+            viol("cubical:range-not-a-permutation", "filtration_simplex_range of the cubical complex %s does not list every cell exactly once" % sizes)
+            continue
+        pos = {k: i for i, k in enumerate(order)}
+        if any(fd[a][0] > fd[b][0] for a, b in zip(order, order[1:])):
+            viol("cubical:not-sorted", "filtration values decrease along the cubical filtration range (shape %s)" % sizes)
+        bad = next(((k, f) for k in range(n) for f in cub_faces(sizes, per, k) if pos[f] > pos[k]), None)
+        if bad:
+            viol("cubical:face-after-coface", "cell %d comes before its face %d in the cubical filtration range (shape %s, periodic %s)" % (bad[0], bad[1], sizes, per))
+        for key, a in answers.items():
+            if a != ref:
+                viol("cubical:determinism", "the cubical filtration range depends on the build / thread count: %s differs from the sequential build "
+                     "(shape %s, %d cells)" % (key, sizes, n), short(ref.split(" # ")[1], 300), short(a.split(" # ")[1] if " # " in a else a, 300))
+                break
+        if order != sorted(range(n), key=lambda k: (fd[k][0], fd[k][1], k)):
+            viol("cubical:order-differs-from-model", "the cubical filtration order is valid but not the (value, dimension, position) order of the "
+                 "algorithm model (shape %s)" % sizes, no_input=True)
+    res.extra["cubical_cases"] = len(cases)
+
+
 def check(ctx, replay=None):
     res = core.Result()
     if not getattr(ctx, "skip_proof", False):
@@ -650,6 +748,20 @@ def check(ctx, replay=None):
                            ("c03_drv.cpp", "rel", ["-DGUDHI_USE_TBB", "-DNDEBUG"], "-O2")])
     orc = ctx.build_oracle("c03")
     hist_groups, large_groups = [], []
+    if replay and "cubical" in replay["case"]:
+        cc = replay["case"]["cubical"]
+        if any(str(v).startswith("...") for v in cc["vals"]):
+            ctx.seed = replay["case"].get("seed", ctx.seed)
+            ctx.rng = ctx.rng.__class__(ctx.seed * 1000003 + sum(map(ord, ctx.prop)))
+            cubical_stage(ctx, res)
+        else:
+            cubical_stage(ctx, res, only=cc)
+        res.rule = "replay of the cubical filtration-order stage"
+        res.distinct = {"cubical-replay"}
+        return core.finish(ctx, None, res, TRUSTED, ASSUMPTIONS, LEVEL, "cd /verif/coq && make -f Makefile.coq Properties_C03.vo",
+                           correspondence_name=CORRESPONDENCE)
+    if not replay:
+        cubical_stage(ctx, res)     # first, so that it draws from the generator before everything else (reproducible from the seed)
     if replay:
         cj = replay["case"]
         cases = [Case(cj["optset"], cj.get("threads", 2), cj["ops"], cj.get("scenario", "replay"), cj.get("bin", "tbb"))]
